@@ -45,11 +45,32 @@ def cd_conditions(body, bb, depth=0):
         if t["discr_ty"] == "bool" and depth < 4:
             l = op_local(t["discr"])
             took_true = (val != "0")
-            defs = [d for d in body.defs().get(l, []) if d[0] == "stmt"]
-            if len(defs) >= 2 and all(d[4][0] == "use" and d[4][1][0] == "k" and isinstance(d[4][1][1].get("v"), bool) for d in defs):
-                match = [d for d in defs if d[4][1][1]["v"] == took_true]
-                if len(match) == 1:
-                    out.extend(cd_conditions(body, match[0][1], depth + 1))
+            # look through `!x` and plain copies
+            for _ in range(6):
+                ds = [d for d in body.defs().get(l, []) if d[0] in ("stmt", "call")]
+                if len(ds) == 1 and ds[0][0] == "stmt" and ds[0][4][0] == "un" and ds[0][4][1] == "Not" and op_local(ds[0][4][2]) is not None:
+                    l = op_local(ds[0][4][2])
+                    took_true = not took_true
+                elif len(ds) == 1 and ds[0][0] == "stmt" and len(ds[0][3]) == 1 and ds[0][4][0] == "use" and op_place(ds[0][4][1]) is not None and len(op_place(ds[0][4][1])) == 1 and body.locals[op_place(ds[0][4][1])[0]] == "bool":
+                    l = op_place(ds[0][4][1])[0]
+                else:
+                    break
+            defs = [d for d in body.defs().get(l, []) if d[0] in ("stmt", "call") and (d[0] == "call" or len(d[3]) == 1)]
+            is_const = lambda d: d[0] == "stmt" and d[4][0] == "use" and d[4][1][0] == "k" and isinstance(d[4][1][1].get("v"), bool)
+            if len(defs) >= 2 and any(is_const(d) for d in defs):
+                # a merge local: `a && b`, `a || b`, matches!(..) - the taken value was assigned either as that constant
+                # (under the conditions controlling the assignment) or as the value of the last operand
+                for d in defs:
+                    if is_const(d):
+                        if d[4][1][1]["v"] == took_true:
+                            out.extend(cd_conditions(body, d[1], depth + 1))
+                    else:
+                        if d[0] == "call":
+                            e = ("call", callee(d[2]) if "callee" in d[2] else "?", [flow.expr_of(body, a) for a in d[2]["args"]], d[1])
+                        else:
+                            e = flow._rv_expr(body, d[4], d[1], 0, set())
+                        out.append((e, "1" if took_true else "0", d[1]))
+                        out.extend(cd_conditions(body, d[1], depth + 1))
     return out
 
 
